@@ -13,7 +13,7 @@ ENUM = {
 }
 POOL = 12
 PROOFS = ["proofs/P_Segment.tla"]     # thorough tier: the laws for all integers, discharged by tlapm
-UNITS = [1.0, 0.5, 0.25, 0.125]
+UNITS = [1.0, 0.5, 0.25, 0.125, 2.0 ** -12]   # the last one (0.24 ms): absolute tolerances in the fit test would show
 RULE = ("every (clip start, length, duration, hop|default, include_incomplete) of the TLA+ enumeration, run at four exact "
         "units, twice; non-trivial = valid arguments and at least one window is required")
 TRUSTED_BASE = ["checks/c14.py (build clip, list(segment_clip), read start/end back as exact ticks)"]
